@@ -68,15 +68,23 @@ func init() {
 			}
 			for _, x := range shapes {
 				c := cs("H_C13_Workers", x.na, 1, 1, x.w, 0)
-				c.TrackMem = true
+				c.Cert, c.TrackMem = true, true
 				out = append(out, c)
+			}
+			// an undeliverable asset between regular ones
+			for na := 1; na <= 2; na++ {
+				for pos := 0; pos <= na; pos++ {
+					c := cs("H_C13_ProtocolMissing", na, 2, pos)
+					c.Cert, c.TrackMem = true, true
+					out = append(out, c)
+				}
 			}
 			// assets without a single snapshot in the look-back window (stale / empty)
 			for na := 1; na <= 2; na++ {
 				for w := 1; w <= 2; w++ {
 					for html := 0; html <= 1; html++ {
 						c := cs("H_C13_Workers", na, 0, 1, w, html)
-						c.TrackMem = true
+						c.Cert, c.TrackMem = true, true
 						out = append(out, c)
 					}
 				}
